@@ -27,6 +27,8 @@ func runC11(c *core.Ctx) {
 		RunSparseVector(c)
 	case "sparse-matrix":
 		RunSparseMatrix(c)
+	case "sparse-const-vector":
+		RunSparseConst(c)
 	default:
 		panic("unknown scenario " + c.Scenario)
 	}
@@ -77,10 +79,11 @@ func init() {
 		Scenarios: []core.Scenario{
 			{Name: "sparse-vector", Weight: 1},
 			{Name: "sparse-matrix", Weight: 1},
+			{Name: "sparse-const-vector", Weight: 1},
 		},
 		Run:      runC11,
 		StepUnit: "operations by handles (container, live iterators, slices) on one sparse container",
-		Rule: "one run = one seeded history of <=50 public operations on one sparse container of a drawn element type (9 types) and dimension 0..12, interleaved by the tape with <=3 partially consumed iterators and read-only slice handles; operands are fresh dense or sparse objects. After every step all in-range reads and Dim are compared with a dense []float64 model of the same history; full iteration sweeps are themselves scheduled operations. Non-trivial = at least 4 mutating operations on a container of dimension >=2. Distinct = distinct hash of the sequence of model states and iterator positions.",
+		Rule: "sparse-vector / sparse-matrix: one run = one seeded history of <=50 public operations on one sparse container of a drawn element type (9 types) and dimension 0..12, interleaved by the tape with <=3 partially consumed iterators and read-only slice handles; operands are fresh dense or sparse objects. After every step all in-range reads and Dim are compared with a dense []float64 model of the same history; full iteration sweeps are themselves scheduled operations. sparse-const-vector: a read-only sparse vector built from positions handed over in a drawn order (incl. explicit zeros) and <=30 interleaved read handles (point reads before and after the lazy index map exists, iteration from every lower bound, nested read-only slices, joint iteration with a dense partner). Non-trivial = at least 4 mutating operations on a container of dimension >=2 (read-only: dimension >= 2 and at least one entry). Distinct = distinct hash of the sequence of model states and iterator positions.",
 		Assumptions: []string{
 			"values are small integers / halves so that every element type computes exactly; integer overflow is modelled as wrap-around",
 			"receiver and operands never share storage (aliasing is C08, not claimed)",
